@@ -41,6 +41,65 @@ Theorem C16_after_persist_partial : forall s, reachable s ->
 Proof. exact e3_after_persist_partial. Qed.
 Print Assumptions C16_after_persist_partial.
 
+(* every event was published by a request that has finished and answered a success: no event is owned by a
+   request that answered an error, crashed, or gave up *)
+Theorem C16_event_publisher_succeeded : forall s, reachable s -> forall ev, In ev (published s) ->
+  exists th x, get_thread (threads s) (ev_tid ev) = Some th /\ t_pc th = PFinished /\ t_resp th = Some (ROk x).
+Proof. exact e3_event_publisher_succeeded. Qed.
+Print Assumptions C16_event_publisher_succeeded.
+
+(* ---- cancellation of a request's context (ACancel / AResumeCancelled) ------------------------------------------ *)
+(* neither cancelling a context nor a queued lock intent giving up publishes an event or writes anything *)
+Theorem C16_cancelled_publishes_nothing : forall s a s',
+  (exists t, a = ACancel t \/ a = AResumeCancelled t) -> step s a = Some s' ->
+  published s' = published s /\ persisted s' = persisted s.
+Proof. exact e3_cancelled_publishes_nothing. Qed.
+Print Assumptions C16_cancelled_publishes_nothing.
+
+(* a request that gave up waiting for its account locks owns no event, in any reachable state *)
+Theorem C16_cancelled_no_event : forall s t th, reachable s -> get_thread (threads s) t = Some th ->
+  t_resp th = Some (RErr ELockCancelled) -> forall ev, In ev (published s) -> ev_tid ev <> t.
+Proof. exact e3_cancelled_no_event. Qed.
+Print Assumptions C16_cancelled_no_event.
+
+(* non-vacuity. Request 0 funds account 1 with 100. Request 1 (spend 1 -> 2) takes the account locks; request 2
+   (spend 1 -> 3, key 7, reference 9) queues behind it. Request 2's context is cancelled and it gives up
+   ([ELockCancelled]): nothing published, nothing written, its key and reference released. Request 1 completes and
+   publishes exactly one event: two events in all (funding + holder), none of thread 2; two entries on disk. *)
+Definition c16_cancel_prefix : list action :=
+  (AStart 0%nat (mk_create 0 0 false [(0%N, 1%N, 100%Z)]) :: repeat (AResume 0%nat) 8 ++ APersistOk :: repeat (AResume 0%nat) 3) ++
+  [AStart 1%nat (mk_create 0 0 false [(1%N, 2%N, 100%Z)]); AStart 2%nat (mk_create 7 9 false [(1%N, 3%N, 100%Z)]);
+   AResume 1%nat] ++ repeat (AResume 2%nat) 5.
+Definition c16_cancel_rest : list action := repeat (AResume 1%nat) 6 ++ APersistOk :: repeat (AResume 1%nat) 4.
+Example C16_cancelled_nonvacuous :
+  exists s1 s2 s,
+    run init c16_cancel_prefix = Some s1 /\ v_queue s1 = [2%nat] /\ map (fun h => fst (fst h)) (v_locks s1) = [1%nat] /\
+    v_iks s1 = [7%N] /\ v_refs s1 = [9%N] /\
+    run s1 [ACancel 2%nat; AResumeCancelled 2%nat] = Some s2 /\
+    option_map t_resp (get_thread (threads s2) 2%nat) = Some (Some (RErr ELockCancelled)) /\
+    published s2 = published s1 /\ persisted s2 = persisted s1 /\ v_queue s2 = [] /\ v_iks s2 = [] /\ v_refs s2 = [] /\
+    run s2 c16_cancel_rest = Some s /\
+    map ev_tid (published s) = [0%nat; 1%nat] /\ length (published s) = 2%nat /\ length (persisted s) = 2%nat /\
+    option_map t_resp (get_thread (threads s) 1%nat) = Some (Some (ROk (Some 1%nat))) /\
+    option_map t_resp (get_thread (threads s) 2%nat) = Some (Some (RErr ELockCancelled)) /\
+    v_locks s = [] /\ v_queue s = [].
+Proof.
+  eexists. eexists. eexists. repeat (split; [vm_compute; reflexivity|]). vm_compute; reflexivity.
+Qed.
+(* the other branch: the intent is GRANTED (the holder released) while its context is cancelled, and the ctx.Done()
+   branch is taken all the same: the request gives the accounts back, answers the error, owns no event *)
+Example C16_cancelled_granted_nonvacuous :
+  exists s1 s,
+    run init (c16_cancel_prefix ++ ACancel 2%nat :: repeat (AResume 1%nat) 6 ++ APersistOk :: repeat (AResume 1%nat) 3) = Some s1 /\
+    option_map t_granted (get_thread (threads s1) 2%nat) = Some true /\
+    map (fun h => fst (fst h)) (v_locks s1) = [2%nat] /\
+    run s1 [AResumeCancelled 2%nat; AResume 1%nat] = Some s /\
+    option_map t_resp (get_thread (threads s) 2%nat) = Some (Some (RErr ELockCancelled)) /\
+    map ev_tid (published s) = [0%nat; 1%nat] /\ length (persisted s) = 2%nat /\ v_locks s = [] /\ v_queue s = [].
+Proof.
+  eexists. eexists. repeat (split; [vm_compute; reflexivity|]). vm_compute; reflexivity.
+Qed.
+
 (* ---- non-vacuity: two creates (the second under key 8), a revert of the first under key 7, the second create
    replayed under key 8, a metadata write and a preview; five events, the hypotheses of the partial theorem hold ---------------------- *)
 Definition c16_history : list (tid * request) :=
